@@ -60,14 +60,27 @@ func c03(c *Ctx) {
 			if !ok || bi.Name() != "append" {
 				return
 			}
-			src, ok := cl.Call.Args[1].(*ssa.Call)
-			if !ok {
+			// the appended bytes come from a call that reaches the re-encoder (possibly merged with nil on error paths)
+			var src *ssa.Call
+			for _, a := range origins(cl.Call.Args[1]) {
+				switch x := a.V.(type) {
+				case *ssa.Call:
+					if cal := staticCallee(x.Common()); cal != nil && reachEnc[cal] && cal != encode {
+						src = x
+					}
+				case *ssa.Extract:
+					if x2, isC := x.Tuple.(*ssa.Call); isC && x.Index == 0 {
+						if cal := staticCallee(x2.Common()); cal != nil && reachEnc[cal] && cal != encode {
+							src = x2
+						}
+					}
+				}
+			}
+			if src == nil {
 				return
 			}
-			if cal := staticCallee(src.Common()); cal != nil && reachEnc[cal] && cal != encode {
-				if ph, ok := cl.Call.Args[0].(*ssa.Phi); ok {
-					loopFn, fixCall, acc = f, src, ph
-				}
+			if ph, ok := resolveLocal(cl.Call.Args[0]).(*ssa.Phi); ok {
+				loopFn, fixCall, acc = f, src, ph
 			}
 		})
 	}
@@ -371,6 +384,10 @@ func c03(c *Ctx) {
 							if lc, ok := resolveLocal(a).(*ssa.Call); ok && isLenCall(lc) {
 								for _, at := range origins(lc.Call.Args[0]) {
 									if at.Kind == "call" && strings.Contains(at.Name, shortNameOf(jumpGenerator(p))) {
+										okMin = true
+									}
+									// or the recorded jump bytes themselves (the field the generator's result is stored in)
+									if _, fv, isF := fieldRef(at.V); isF && fv != nil && fv == p.patchRoles().PInstall {
 										okMin = true
 									}
 								}
